@@ -430,13 +430,20 @@ class Check:
         broken: list[str] = []
         build_log = ""
         # 1-2. extract, build, audit
+        # T1 obligations kept apart from the property's own files: lean/Utv/GenEq/<prop>.lean proves that functions
+        # regenerated from the source (Utv/Gen) equal the hand-written model functions the property theorems are about;
+        # its theorems `<prop>_gen_*` are obligations of this check (DESIGN.md §3 T1, §11)
+        geneq = LEAN / "Utv" / "GenEq" / f"{self.prop}.lean"
+        has_geneq = geneq.exists()
         with BuildLock():
-            if self.uses_extract:
+            if self.uses_extract or has_geneq:
                 ok, log = run_extract()
                 if not ok:
                     broken.append("T1 extract: " + log.strip().splitlines()[-1] if log.strip() else "T1 extract failed")
                     build_log += log
             mods = list(self.props_modules)
+            if has_geneq and f"Utv.GenEq.{self.prop}" not in mods:
+                mods.append(f"Utv.GenEq.{self.prop}")
             ok, log = lake_build(mods)
             if not ok:
                 # which modules fail individually?  (a broken GenEq must not hide the others)
@@ -450,6 +457,8 @@ class Check:
             for m in self.props_modules:
                 if module_path(m).exists():
                     names += theorem_names(m, prefix)
+            if has_geneq:
+                names += [n for n in theorem_names(f"Utv.GenEq.{self.prop}", self.prop + "_gen_") if n not in names]
             names += list(self.extra_obligations)
             axioms = print_axioms([m for m in mods if module_path(m).exists()], names) if names else {}
         obligations = len(names)
@@ -464,13 +473,13 @@ class Check:
                 discharged += 1
         if not names:
             broken.append("no property theorem found")
-        for h in forbidden_tokens(self.props_modules):
+        for h in forbidden_tokens(mods):
             broken.append("forbidden token in " + h)
         broken += self.extra_static(tier)
-        checker = f"cd lean && lake build {' '.join('+' + m for m in self.props_modules)} && #print axioms (each theorem)"
+        checker = f"cd lean && lake build {' '.join('+' + m for m in mods)} && #print axioms (each theorem)"
         if tier == "thorough" and not broken:
-            ok, log = leanchecker(self.props_modules)
-            checker += " && lake env leanchecker " + " ".join(self.props_modules)
+            ok, log = leanchecker(mods)
+            checker += " && lake env leanchecker " + " ".join(mods)
             if not ok:
                 broken.append("leanchecker: " + log[-300:])
 
